@@ -84,7 +84,17 @@ CHECKS.update({
 
 PENDING_REASON = "check not yet implemented in this revision of /verif (planned, see DESIGN.md §5); not claimed until it exists"
 
+def load_note_entries():
+    """checks delivered with notes/CNN/manifest.json (category, text, note, design_ref, technique)"""
+    import glob
+    for f in sorted(glob.glob('/verif/notes/C*/manifest.json')):
+        cid = f.split('/')[-2]
+        d = json.load(open(f))
+        CHECKS[cid] = (d["category"], d["text"], d["note"], d["design_ref"], d["technique"])
+
+
 def main():
+    load_note_entries()
     props = [json.loads(l) for l in open('/verif/properties.jsonl')]
     checks = []
     na = []
